@@ -1,3 +1,22 @@
+import glob as _glob, json as _json, os as _os
+
+
+def _stale_corpus(ctx):
+    """A corpus witness names a program of the generated corpus (harness/hv_dfir/corpus/build.rs); when the
+    generator changes, the harness can only skip it (`stale-corpus-case`). A regression witness that
+    silently stops running is a broken tie: re-record the corpus file."""
+    stale = []
+    for st in _glob.glob(_os.path.join(ctx["work"], "p*_corpus_*", "stats.json")):
+        try:
+            n = _json.load(open(st)).get("hist", {}).get("stale-corpus-case", 0)
+        except Exception as ex:  # unreadable stats = cannot vouch for the witness
+            n = -1
+        if n:
+            stale.append(f"{_os.path.basename(_os.path.dirname(st))}:{n}")
+    return [("corpus witnesses still name compiled corpus programs", not stale,
+             "stale: " + ", ".join(stale) if stale else "all corpus cases ran", None)]
+
+
 SPEC = dict(
     id="C22",
     lean_project="HvDfir", props_module="HvDfir.Props.C22", driver="hvdrv_dfir",
@@ -7,7 +26,7 @@ SPEC = dict(
     level="proof",
     design_ref="DESIGN.md §5 C22",
     technique="Lean 4 theorems on the program denotation (perturbation invariance by induction on the program; partitioned schedule refines the denotation) + differential execution of (original, shape-perturbed) compiled program pairs",
-    level_text=("Partial. Theorems: shape_perturbation_preserves_denotation — inserting identity / map(|x| x) / unary tee / unary "
+    level_text=("Partial: the theorems are about the model's batch denotation of a program (each node evaluated once per tick on complete input lists), they do not model pull/push realisation; that the compiled code computes this denotation is tied by execution only, and the clause 'all compile or all fail' has an oracle but no theorem. Theorems: shape_perturbation_preserves_denotation — inserting identity / map(|x| x) / unary tee / unary "
                 "union / tee with a dropped extra branch (forces push) / union with an extra empty source (forces pull) in front of "
                 "any operator input, any number of times, leaves every sink's per-tick output unchanged on every history (induction "
                 "on the node list, invariant: states and buffers agree off the fresh ids); sched_refines_denot — a partitioned "
@@ -24,10 +43,11 @@ SPEC = dict(
                 "same-tick-cycle pairs that must be rejected alike. Refuted clause: fused_shortcircuit_shape_dependent_refuted "
                 "(F221) with the fused code path transcribed as model operators and reproduced on the real code."),
     level_note=("Not modelled: the item-at-a-time fusion inside a subgraph (which operators are pull adaptors, which drain eagerly, "
-                "pivot, push chain) — covered by the differential execution only. Known finding F22: operators that stop pulling "
+                "pivot, push chain) — covered by the differential execution only. Known finding F221: operators that stop pulling "
                 "early (chain_first_n, cross_singleton, defer_signal's signal port) leave lazily evaluated stateful operators "
                 "(enumerate/unique/scan 'static, multiset_delta, inspect) of the same subgraph with a partially consumed input, so "
                 "the same program gives different later outputs when a handoff separates them."),
     trusted_base=["rustc + dfir_macro expansion of the corpus", "closure library / item encoding shared between build.rs and the Lean model"],
+    extra=_stale_corpus,
     assumptions=["perturbations are pass-through stages; programs are acyclic within a tick"],
 )
